@@ -54,7 +54,7 @@ def run(tier: str) -> int:
     for name, srcs in base.repo_sources():
         for vec in ({"inline_functions": False}, {}):
             items.append(("monitor", dict(name=name, sources=srcs, tier=tier, strict=False, shadow=True, opts=vec)))
-    for k, v in probes.call_probes() + probes.range_probes()[:12]:
+    for k, v in probes.call_probes() + probes.range_probes()[:12] + probes.lifetime_probes() + probes.call_matrix()[::6]:
         for vec in vecs[:2]:
             items.append(("monitor", dict(name=f"probe:{k}", sources=v, tier=tier, shadow=True, opts=vec)))
     press = []
